@@ -46,19 +46,9 @@ func runMatrix(t *testing.T, prop, mode string, protos []string, kinds, listKind
 				}
 			}
 		}
-		for _, c := range cells {
-			if flt := os.Getenv("VERIF_CELLFILTER"); flt != "" && !strings.Contains(fmt.Sprintf("%s.%s:%s", shortType(c.F.MsgType), c.F.Field.Name, c.F.Kind), flt) {
-				continue // development aid
-			}
-			total++
-			if total%shards != shard {
-				continue
-			}
-			if sample > 1 && (total/shards+int(ev.Seed()))%sample != 0 {
-				continue
-			}
-			cases = append(cases, c)
-		}
+		cells = filterCells(cells)
+		total += len(cells)
+		cases = append(cases, sampleCells(cells, sample, shard, shards)...)
 	}
 	r.Note(fmt.Sprintf("matrix_cells_total_%s", t.Name()), total)
 	ev.Each(t, r, cases, func(c faultCase) ev.Outcome { return runFault(c, mode) })
@@ -79,4 +69,60 @@ func TestC05MatrixECDSAKeygen(t *testing.T) {
 
 func TestC05MatrixECDSAResharing(t *testing.T) {
 	runMatrix(t, "C05", "C05", []string{"ecdsa-resharing"}, c05Kinds, nil, 8)
+}
+
+
+func filterCells(cells []faultCase) []faultCase {
+	flt := os.Getenv("VERIF_CELLFILTER") // development aid
+	if flt == "" {
+		return cells
+	}
+	var out []faultCase
+	for _, c := range cells {
+		if strings.Contains(fmt.Sprintf("%s.%s:%s", shortType(c.F.MsgType), c.F.Field.Name, c.F.Kind), flt) {
+			out = append(out, c)
+		}
+	}
+	return out
+}
+
+// sampleCells: the whole list (sample <= 1) or a stratified sample: cells are grouped by (message type,
+// field name) and every stratum contributes ceil(len/sample) cells, rotated by the seed, so that every
+// field of every message is hit in every run. The result is then split over the shards.
+func sampleCells(cells []faultCase, sample, shard, shards int) []faultCase {
+	var picked []faultCase
+	if sample <= 1 {
+		picked = cells
+	} else {
+		strata := map[string][]faultCase{}
+		var order []string
+		for _, c := range cells {
+			k := c.F.MsgType + "/" + c.F.Field.Name
+			switch {
+			case strings.HasPrefix(c.F.Kind, "commit:"):
+				k += "/commit"
+			case c.F.Kind == "sum-zero" || c.F.Kind == "mirror" || c.F.Kind == "wrong-secret" || strings.HasPrefix(c.F.Kind, "weak-params") || strings.HasPrefix(c.F.Kind, "bits-"):
+				k += "/" + c.F.Kind
+			}
+			if _, ok := strata[k]; !ok {
+				order = append(order, k)
+			}
+			strata[k] = append(strata[k], c)
+		}
+		seed := int(ev.Seed())
+		for _, k := range order {
+			st := strata[k]
+			n := (len(st) + sample - 1) / sample
+			for i := 0; i < n; i++ {
+				picked = append(picked, st[(seed*7+i*sample+len(k))%len(st)])
+			}
+		}
+	}
+	var out []faultCase
+	for i, c := range picked {
+		if i%shards == shard {
+			out = append(out, c)
+		}
+	}
+	return out
 }
